@@ -3,6 +3,7 @@ Lemmas for C09 (pattern search reports exactly the occurrences) and the search p
 -/
 import Sqroot.Model.Search
 import Sqroot.Spec.Search
+import Sqroot.Proofs.SearchLemmas
 namespace Sqroot.Proofs
 open Sqroot.Model
 
@@ -15,6 +16,135 @@ def feedOf (s : Int) (T : List Int) : List (Int × Int) :=
 /-- length of the longest proper border of `l` (a proper prefix of `l` that is also a suffix) -/
 def IsBorder (b l : List Int) : Prop := b.length < l.length ∧ b <+: l ∧ b <:+ l
 
+/-! ### facts about `feedOf` -/
+
+theorem feedOf_getElem? (s : Int) (T : List Int) (j : Nat) :
+    (feedOf s T)[j]? = T[j]?.map fun d => (s + (j : Int), d) := by
+  simp only [feedOf, List.getElem?_map, List.getElem?_zipIdx, Option.map_map]
+  cases T[j]? <;> simp [shiftPos]
+
+theorem feedOf_length (s : Int) (T : List Int) : (feedOf s T).length = T.length := by
+  simp [feedOf]
+
+theorem feedOf_map_snd (s : Int) (T : List Int) : (feedOf s T).map Prod.snd = T := by
+  apply List.ext_getElem?
+  intro j
+  rw [List.getElem?_map, feedOf_getElem?]
+  cases T[j]? <;> rfl
+
+theorem feedOf_map_fst (s : Int) (T : List Int) :
+    (feedOf s T).map Prod.fst = (List.range T.length).map (shiftPos s) := by
+  apply List.ext_getElem?
+  intro j
+  rw [List.getElem?_map, feedOf_getElem?, List.getElem?_map]
+  by_cases h : j < T.length
+  · rw [List.getElem?_range h, List.getElem?_eq_getElem h]; rfl
+  · rw [List.getElem?_eq_none (by omega), List.getElem?_eq_none (by simp; omega)]; rfl
+
+theorem feedOf_nil (s : Int) : feedOf s [] = [] := rfl
+
+theorem feedOf_cons (s : Int) (d : Int) (T : List Int) :
+    feedOf s (d :: T) = (s, d) :: feedOf (s + 1) T := by
+  apply List.ext_getElem?
+  intro j
+  cases j with
+  | zero => simp [feedOf_getElem?]
+  | succ j =>
+    simp only [feedOf_getElem?, List.getElem?_cons_succ]
+    cases T[j]? with
+    | none => rfl
+    | some v => simp only [Option.map_some]; congr 2; omega
+
+theorem feedOf_append (A B : List Int) : ∀ s : Int,
+    feedOf s (A ++ B) = feedOf s A ++ feedOf (s + (A.length : Int)) B := by
+  induction A with
+  | nil => intro s; simp [feedOf_nil]
+  | cons a A ih =>
+    intro s
+    rw [List.cons_append, feedOf_cons, ih, feedOf_cons, List.cons_append]
+    congr 3
+    simp only [List.length_cons]; omega
+
+theorem posAt_feedOf (s : Int) (T : List Int) {j : Nat} (hj : j < T.length) :
+    posAt (feedOf s T) j = s + (j : Int) := by
+  simp [posAt, feedOf_getElem?, List.getElem?_eq_getElem hj]
+
+theorem posAt_feedOf_reverse (s : Int) (T : List Int) {j : Nat} (hj : j < T.length) :
+    posAt (feedOf s T).reverse j = s + ((T.length - 1 - j : Nat) : Int) := by
+  have h1 : j < (feedOf s T).length := by rw [feedOf_length]; exact hj
+  have h2 : T.length - 1 - j < T.length := by omega
+  simp [posAt, List.getElem?_reverse h1, feedOf_getElem?, feedOf_length,
+    List.getElem?_eq_getElem h2]
+
+theorem toArray_size_ne_zero {p : List Int} (hp : p ≠ []) : ¬ p.toArray.size = 0 := by
+  have := List.length_pos_iff.2 hp
+  simp only [List.size_toArray]; omega
+
+/-! ### v1/v2 `Reset` is a no-op on consecutive feeds -/
+
+theorem reset_of_idx_zero {k : Kernel} (h : k.idx = 0) : k.reset = k := by
+  obtain ⟨t, q, i⟩ := k
+  simp only at h
+  subst h; rfl
+
+theorem newKernel_idx {pat : Array Int} {k : Kernel} (h : newKernel pat = .ok k) : k.idx = 0 := by
+  unfold newKernel at h
+  cases ht : ttable pat with
+  | error e => simp [ht, bind, Except.bind] at h
+  | ok t =>
+    simp only [ht, bind, Except.bind, pure, Except.pure, Except.ok.injEq] at h
+    subst h; rfl
+
+theorem kmpFeedV1_eq_fwd : ∀ (T : List Int) (s : Int) (k : Kernel) (e : Int),
+    (k.idx = 0 ∨ e = s) →
+    kmpFeedV1 k false e (feedOf s T) = kmpFeed k false (feedOf s T) := by
+  intro T
+  induction T with
+  | nil => intro s k e _; rfl
+  | cons d T ih =>
+    intro s k e h
+    rw [feedOf_cons]
+    unfold kmpFeedV1 kmpFeed
+    have hk0 : (if s ≠ e then k.reset else k) = k := by
+      rcases h with h | h
+      · rw [reset_of_idx_zero h]; simp
+      · simp [h]
+    simp only [hk0, bind, Except.bind, Bool.false_eq_true, if_false]
+    cases k.visit d with
+    | error err => rfl
+    | ok r =>
+      obtain ⟨k', hit⟩ := r
+      simp only []
+      rw [ih (s + 1) k' (s + 1) (Or.inr rfl)]
+
+theorem kmpFeedV1_eq_bwd : ∀ (R : List Int) (s : Int) (k : Kernel) (e : Int),
+    (k.idx = 0 ∨ e = s + (R.length : Int) - 1) →
+    kmpFeedV1 k true e (feedOf s R.reverse).reverse = kmpFeed k true (feedOf s R.reverse).reverse := by
+  intro R
+  induction R with
+  | nil => intro s k e _; rfl
+  | cons d R ih =>
+    intro s k e h
+    have hf : (feedOf s (d :: R).reverse).reverse
+        = (s + (R.length : Int), d) :: (feedOf s R.reverse).reverse := by
+      rw [List.reverse_cons, feedOf_append, List.reverse_append, feedOf_cons, feedOf_nil]
+      simp
+    rw [hf]
+    unfold kmpFeedV1 kmpFeed
+    have hk0 : (if s + (R.length : Int) ≠ e then k.reset else k) = k := by
+      rcases h with h | h
+      · rw [reset_of_idx_zero h]; simp
+      · rw [if_neg]; simp only [List.length_cons] at h; simp only [ne_eq, Decidable.not_not]; omega
+    simp only [hk0, bind, Except.bind, if_true]
+    cases k.visit d with
+    | error err => rfl
+    | ok r =>
+      obtain ⟨k', hit⟩ := r
+      simp only []
+      rw [ih s k' (s + (R.length : Int) + -1) (Or.inr (by omega))]
+
+/-! ### the theorems -/
+
 /-- `ttable` never panics or runs out of fuel, and `t[0] = −1`, `t[i]` (1 ≤ i ≤ |p|) is the length
 of the longest proper border of `p[0..i)` -/
 theorem ttable_spec (p : List Int) (hp : p ≠ []) :
@@ -22,38 +152,104 @@ theorem ttable_spec (p : List Int) (hp : p ≠ []) :
       ∀ i, 1 ≤ i → i ≤ p.length →
         ∃ b : List Int, t[i]? = some (b.length : Int) ∧ IsBorder b (p.take i) ∧
           ∀ b', IsBorder b' (p.take i) → b'.length ≤ b.length := by
-  sorry
+  obtain ⟨t, h1, h2, h3⟩ := ttable_ok p hp
+  refine ⟨t, h1, h2, h3.1, ?_⟩
+  intro i hi1 hi2
+  obtain ⟨b, hb, hlb⟩ := h3.2 i hi1 hi2
+  have hbi : b < i := hlb.1.1
+  have hlen : (p.take b).length = b := by simp only [List.length_take]; omega
+  refine ⟨p.take b, by rw [hlen]; exact hb, ⟨?_, List.take_prefix_take_left (by omega), hlb.1.2⟩, ?_⟩
+  · simp only [List.length_take]; omega
+  · intro b' hb'
+    rw [hlen]
+    apply hlb.2
+    obtain ⟨g1, g2, g3⟩ := hb'
+    have hl : (p.take i).length = i := by simp only [List.length_take]; omega
+    rw [hl] at g1
+    have : b' = p.take b'.length := by
+      have := List.prefix_iff_eq_take.1 g2
+      rw [List.take_take] at this
+      rw [show min b'.length i = b'.length by omega] at this
+      exact this
+    exact ⟨g1, by rw [← this]; exact g3⟩
 
 /-- C09 forward: on any window the forward search yields exactly the occurrences, ascending,
 overlaps included; no index panic, no exhausted fuel. -/
 theorem matchesAll_spec (p : List Int) (hp : p ≠ []) (T : List Int) (s : Int) :
     matchesAll p.toArray (feedOf s T) = .ok ((Spec.occurrences p T).map (shiftPos s)) := by
-  sorry
+  obtain ⟨t, ht, hk, hinv⟩ := newKernel_ok p hp
+  unfold matchesAll
+  rw [if_neg (toArray_size_ne_zero hp)]
+  simp only [hk, bind, Except.bind]
+  rw [kmpFeed_spec ht false _ _ _ hinv, feedOf_map_snd, occurrences_eq_idxs hp, List.map_map]
+  congr 1
+  apply List.map_congr_left
+  intro j hj
+  obtain ⟨h1, h2⟩ := idxs_bounds hj
+  simp only [outPos, posAt_feedOf s T h1, Function.comp, shiftPos, Bool.false_eq_true, if_false]
+  omega
 
 /-- C09 backward: the backward search yields the same set in descending order -/
 theorem backwardMatchesAll_spec (p : List Int) (hp : p ≠ []) (T : List Int) (s : Int) :
     backwardMatchesAll p.toArray (feedOf s T).reverse
       = .ok (((Spec.occurrences p T).map (shiftPos s)).reverse) := by
-  sorry
+  have hp' : p.reverse ≠ [] := by simpa using hp
+  obtain ⟨t, ht, hk, hinv⟩ := newKernel_ok p.reverse hp'
+  unfold backwardMatchesAll
+  rw [if_neg (toArray_size_ne_zero hp)]
+  simp only [patternReverse, List.reverse_toArray, hk, bind, Except.bind]
+  rw [kmpFeed_spec ht true _ _ _ hinv, List.map_reverse, feedOf_map_snd, ← List.map_reverse,
+    occurrences_reverse_eq_idxs hp, List.map_map]
+  congr 1
+  apply List.map_congr_left
+  intro j hj
+  have h1 : j < T.length := by simpa using (mem_idxs.1 hj).1
+  simp only [outPos, posAt_feedOf_reverse s T h1, Function.comp, shiftPos, if_true]
 
 /-- the empty pattern matches at every digit position of the window -/
 theorem matchesAll_empty (T : List Int) (s : Int) :
     matchesAll #[] (feedOf s T) = .ok ((List.range T.length).map (shiftPos s)) ∧
     backwardMatchesAll #[] (feedOf s T).reverse
       = .ok (((List.range T.length).map (shiftPos s)).reverse) := by
-  sorry
+  constructor
+  · simp [matchesAll, feedOf_map_fst]
+  · simp only [backwardMatchesAll, Array.size_empty, if_true, List.map_reverse, feedOf_map_fst]
 
 /-- a pattern containing a value outside 0–9 matches nowhere in a text of decimal digits -/
 theorem bad_pattern_no_match (p T : List Int) (hb : ∃ v ∈ p, v < 0 ∨ 9 < v)
     (hT : ∀ d ∈ T, 0 ≤ d ∧ d ≤ 9) : Spec.occurrences p T = [] := by
-  sorry
+  obtain ⟨v, hv, hbad⟩ := hb
+  unfold Spec.occurrences
+  rw [List.filter_eq_nil_iff]
+  intro i _ hocc
+  simp only [Spec.occursAt, Bool.and_eq_true, decide_eq_true_eq, beq_iff_eq] at hocc
+  rw [← hocc.2] at hv
+  have := hT v (List.mem_of_mem_drop (List.mem_of_mem_take hv))
+  omega
 
 /-- v1/v2: on consecutive positions the `Reset` branch is a no-op — same result as v3 -/
 theorem matchesAllV1_eq (p : List Int) (T : List Int) (s : Int) :
     matchesAllV1 p.toArray (feedOf s T) = matchesAll p.toArray (feedOf s T) ∧
     backwardMatchesAllV1 p.toArray (feedOf s T).reverse
       = backwardMatchesAll p.toArray (feedOf s T).reverse := by
-  sorry
+  constructor
+  · unfold matchesAllV1 matchesAll
+    split
+    · rfl
+    · cases hk : newKernel p.toArray with
+      | error e => rfl
+      | ok k =>
+        simp only [bind, Except.bind]
+        exact kmpFeedV1_eq_fwd T s k (-1) (Or.inl (newKernel_idx hk))
+  · unfold backwardMatchesAllV1 backwardMatchesAll
+    split
+    · rfl
+    · cases hk : newKernel (patternReverse p.toArray) with
+      | error e => rfl
+      | ok k =>
+        simp only [bind, Except.bind]
+        have := kmpFeedV1_eq_bwd T.reverse s k (-1) (Or.inl (newKernel_idx hk))
+        rwa [List.reverse_reverse] at this
 
 /-- C15 core: a lazy search for the first `n` matches returns exactly the first `n` occurrences
 and has pulled feed items only up to the digit that completes the last reported match (or the
@@ -66,6 +262,30 @@ theorem kmpTake_spec (p : List Int) (hp : p ≠ []) (T : List Int) (s : Int) (n 
         (0 < n → n ≤ (Spec.occurrences p T).length →
           ∀ last, ((Spec.occurrences p T).take n).getLast? = some last → c = last + p.length) ∧
         ((Spec.occurrences p T).length < n → c = T.length) := by
-  sorry
+  obtain ⟨t, ht, hk, hinv⟩ := newKernel_ok p hp
+  refine ⟨_, hk, takeCount n (idxs p [] T) T.length, ?_, ?_, ?_, ?_⟩
+  · rw [kmpTake_gen ht false _ _ _ n hinv, feedOf_map_snd, feedOf_length, occurrences_eq_idxs hp,
+      ← List.map_take, List.map_map]
+    congr 2
+    apply List.map_congr_left
+    intro j hj
+    obtain ⟨h1, h2⟩ := idxs_bounds (List.mem_of_mem_take hj)
+    simp only [outPos, posAt_feedOf s T h1, Function.comp, shiftPos, Bool.false_eq_true, if_false]
+    omega
+  · intro hn; simp [takeCount, hn]
+  · intro hn hle last hlast
+    rw [occurrences_eq_idxs hp] at hle hlast
+    rw [List.length_map] at hle
+    have hlt : n - 1 < (idxs p [] T).length := by omega
+    rw [List.getLast?_take, if_neg (by omega), List.getElem?_map,
+      List.getElem?_eq_getElem hlt] at hlast
+    simp only [Option.map_some, Option.some_or, Option.some.injEq] at hlast
+    obtain ⟨_, h2⟩ := idxs_bounds (List.getElem_mem hlt)
+    simp only [takeCount, if_neg (show ¬ n = 0 by omega), List.getElem?_eq_getElem hlt]
+    omega
+  · intro hlt
+    rw [occurrences_eq_idxs hp, List.length_map] at hlt
+    simp only [takeCount, if_neg (show ¬ n = 0 by omega),
+      List.getElem?_eq_none (show (idxs p [] T).length ≤ n - 1 by omega)]
 
 end Sqroot.Proofs
